@@ -106,6 +106,16 @@ def work_special(args):
                     snd = ops.get("send@" + sd, [])
                     if snd and snd[-1][3] != "closed":
                         bad.append(("closed-send", "send on the closed connection at %s returned %r" % (sd, snd[-1][3])))
+        elif scenario.startswith("unread-unreliable"):
+            recv_side = "s" if scenario.endswith(":c") else "c"
+            if b"after the burst" not in se.got.get((recv_side, 0), []):
+                bad.append(("blocked", "after 150 unreliable datagrams that the application at %s never reads, the reliable message sent next was not delivered there" % recv_side))
+        elif scenario.startswith("extra-substreams"):
+            who = scenario[-1]
+            for k in (1, 2):
+                o = (ops.get("recv(%d)@%s" % (k, who)) or [[None, None, None, None]])[-1]
+                if o[3] != "eof":
+                    bad.append(("hang", "recv(%d) at %s (configured with 3 substreams, 1 negotiated) was %r when the connection ended: a pending recv on every substream the application may read must be released" % (k, who, o[3])))
         elif scenario.startswith("handler-raises"):
             # the client learns of the end at the latest through its keep-alive: silence + ping_timeout + (resend_limit+1)*resend_timeout
             t_end = (ops.get("handler") or [[None, None, None, None]])[0][2]
@@ -161,7 +171,7 @@ def run(ctx):
                 "exactly (resend_limit+1)*resend_timeout, late sends raise closed, server table empties, the address reconnects; each run is "
                 "replayed through the Lean L1 model tick-exactly; plus a forceful local close() on either side while recv / recv_unreliable are pending in other tasks "
                 "(released at once locally, within one delay at the peer; later recv raises end-of-stream), and a keyed server refusing the login (wrong key, "
-                "expired, garbage ticket), an incompatible peer that answers SYN and CONNECT at packet level (ticket presented to a keyless port; no credentials at a keyed port), and a server handler that ends with an exception (end-of-stream escaping its receive loop, a rejected request) ; two clients on one port where one connection ends (gracefully, by silence, kicked) before the other's link dies — each followed by a new working connection from the same address; distinct non-trivial = distinct (configuration, k, mode)")
+                "expired, garbage ticket), an incompatible peer that answers SYN and CONNECT at packet level (ticket presented to a keyless port; no credentials at a keyed port), and a server handler that ends with an exception (end-of-stream escaping its receive loop, a rejected request) ; 150 unreliable datagrams nobody reads followed by ordinary traffic; a recv pending on every configured substream when fewer were negotiated; two clients on one port where one connection ends (gracefully, by silence, kicked) before the other's link dies — each followed by a new working connection from the same address; distinct non-trivial = distinct (configuration, k, mode)")
     base = dict(fragment_size=16, resend_timeout=0.5, ping_timeout=1.0)
     cfgs = []
     if quick:
@@ -198,7 +208,8 @@ def run(ctx):
                     sjobs.append((n, dict(base, version=version, credentials=creds, resend_limit=lim), 1, sc)); n += 1
             for sc in ("refused:wrong-key", "refused:expired", "refused:garbage"):
                 sjobs.append((n, dict(base, version=version, credentials=True, resend_limit=lim), 1, sc)); n += 1
-            for sc in ("handler-raises:eof", "handler-raises:reject", "incompatible:creds-vs-keyless", "incompatible:keyless-vs-keyed"):
+            for sc in ("handler-raises:eof", "handler-raises:reject", "incompatible:creds-vs-keyless", "incompatible:keyless-vs-keyed",
+                       "unread-unreliable:c", "unread-unreliable:s") + (("extra-substreams:c", "extra-substreams:s") if version == 1 else ()):
                 sjobs.append((n, dict(base, version=version, credentials=False, resend_limit=lim), 1, sc)); n += 1
     # two clients on one server port: one connection ends (gracefully, by silence, kicked by the server), later the other one's link dies
     tjobs = []
